@@ -1,4 +1,5 @@
 import MgProof.C02.Assemble
+import MgProof.C02.LemmasG
 /-!
 # C02 — ring buffer: one total write order; read `i` = `i`-th message; read-once exactly once; HB
 
@@ -76,6 +77,31 @@ theorem writers_exclusive_and_in_bounds {c : Cfg} {e : Nat} (wf : WF c e) {s : S
     (∀ t u, inW (s.pc t) = true → inW (s.pc u) = true → t = u) ∧ s.oob = 0 :=
   ⟨(inv_reach wf hr).a1.excl, (inv_reach wf hr).oob⟩
 
+theorem invG_reach {c : Cfg} {e : Nat} (wf : WF c e) (ok : IdsOK c) {s : St}
+    (hr : Reach (step c) (mkInit c) s) : InvAll c s ∧ InvG c s := by
+  refine Reach.inv (fun s => InvAll c s ∧ InvG c s) ⟨inv_init wf, invG_init c⟩ ?_ s hr
+  intro s tok s' ev h hs
+  simp only [step, Option.map_eq_some_iff] at hs
+  obtain ⟨s1, hs1, heq⟩ := hs
+  cases heq
+  exact ⟨inv_step wf h.1 hs1, invG_step ok h.1.a1 h.2 hs1⟩
+
+/-- **All writers' messages form a single total order**: the write order `written` (order of the
+release stores of `cursor`) contains every published message exactly once — the `pre` prefilled
+messages and, for every writer `t`, its first `pub s t` messages (`pub` = calls of
+`muggle_ring_buffer_write` whose cursor store has happened): nothing is lost (`complete`), nothing
+is duplicated (`Nodup`), nothing else gets in (`only`). Needs the harness's message naming to be
+injective (`IdsOK`: at most 100 messages per writer, fewer than 100 prefilled). -/
+theorem write_order_total {c : Cfg} {e : Nat} (wf : WF c e) (ok : IdsOK c) {s : St}
+    (hr : Reach (step c) (mkInit c) s) :
+    s.written.Nodup ∧
+    (∀ t k, k < pub s t → msgId t k ∈ s.written) ∧
+    (∀ m, 1 ≤ m → m ≤ c.pre → m ∈ s.written) ∧
+    (∀ m, m ∈ s.written → (1 ≤ m ∧ m ≤ c.pre) ∨
+      (100 ≤ m ∧ m / 100 - 1 < c.nW ∧ m % 100 < pub s (m / 100 - 1))) := by
+  have g := (invG_reach wf ok hr).2
+  exact ⟨g.nd, g.cmp, g.pre, g.dec⟩
+
 /-! ## Clause 2: read-once — each message to exactly one reader, collectively in write order -/
 
 /-- **Read-once: collectively in write order without loss or duplication.** The messages consumed
@@ -113,6 +139,13 @@ theorem read_once_consumer_position {c : Cfg} {e : Nat} (wf : WF c e) (hm : c.rm
   have := i.b.cntS
   have := wf.hlim
   omega
+
+/-- **Read-once: no message is handed out twice** (by identity, not only by position): the consumed
+messages are pairwise distinct. -/
+theorem read_once_no_duplicates {c : Cfg} {e : Nat} (wf : WF c e) (ok : IdsOK c) (hm : c.rm = .once)
+    {s : St} (hr : Reach (step c) (mkInit c) s) : (s.delivered.map Prod.fst).Nodup := by
+  rw [(read_once_in_write_order wf hm hr).1]
+  exact (write_order_total wf ok hr).1.sublist (List.take_sublist _ _)
 
 /-! ## Clause 3: what the producer stored before writing is visible to every receiving reader -/
 
@@ -175,6 +208,8 @@ def exCfg : Cfg :=
   { cap := 2, wm := .lock, rm := .wait, nW := 1, nR := 1, nw := 2, nr := 2, base := 2 ^ 32 - 1, lim := 1 }
 
 theorem exCfg_wf : WF exCfg 1 := ⟨by decide, by decide, by decide, by decide⟩
+
+theorem exCfg_ids : IdsOK exCfg := ⟨by decide, by decide⟩
 
 /-- the hypotheses are satisfiable and the theorems talk about non-trivial states: a schedule in
 which the reader parks in the futex, is woken by the writer, and both messages are delivered
